@@ -1,3 +1,4 @@
 """Imports every simulation module so that its specs register themselves."""
 
 import sim.bytechan  # noqa: F401
+import sim.clichan  # noqa: F401
